@@ -62,4 +62,22 @@ def transferFields (hasWeight : Bool) (cn : List Bin) (segs : List SegO) : Trans
     if segs.isEmpty then .nullRow (nullSegment ufirst.chrom ufirst.s ulast.e)
     else .table ((stretchEnds ufirst ulast segs).map (if hasWeight then aggregate cn else aggregateNW cn))
 
+/-- clauses of C03's aggregation sentence violated by the rows `out` that the real `transfer_fields` returned for the
+    bins `cn` (each row judged on ITS OWN span): with a weight column the weight is the total of the spanned bins and
+    the depth their weighted mean, or exactly 0 when that total is not positive; without one the weight is the number
+    of spanned bins and the depth their plain mean -/
+def transferSpec (hasWeight : Bool) (cn : List Bin) (out : List SegO) : List String :=
+  let bad (p : SegO → Bool) : Bool := out.any (fun g => !p g)
+  let total (g : SegO) : Rat := sumQ ((spanned cn g).map (·.weight))
+  let weighted := bad fun g =>
+    !hasWeight || !decide (total g > 0) ||
+      (closeQ g.weight (aggregate cn g).weight && closeQ g.depth (aggregate cn g).depth)
+  let zero := bad fun g =>
+    !hasWeight || decide (total g > 0) || (closeQ g.weight (total g) && decide (g.depth = 0))
+  let unweighted := bad fun g =>
+    hasWeight || (closeQ g.weight (aggregateNW cn g).weight && closeQ g.depth (aggregateNW cn g).depth)
+  (if weighted then ["weight_depth_of_spanned_bins"] else []) ++
+  (if zero then ["zero_weight_segment_has_depth_zero"] else []) ++
+  (if unweighted then ["no_weight_column_counts_bins_and_averages"] else [])
+
 end CnvVerif
